@@ -10,14 +10,17 @@ import (
 	"github.com/uber/kraken/core"
 	"github.com/uber/kraken/lib/torrent/networkevent"
 	"github.com/uber/kraken/lib/torrent/scheduler/announcequeue"
-	"github.com/uber/kraken/lib/torrent/scheduler/announcer"
 	"github.com/uber/kraken/lib/torrent/scheduler/dispatch"
-	"github.com/uber/kraken/lib/torrent/scheduler/torrentlog"
 	"github.com/uber/kraken/lib/torrent/storage"
 	"github.com/uber/kraken/tracker/announceclient"
 	verif "github.com/uber/kraken/zzverif"
-	"go.uber.org/zap"
 )
+
+// API-only harness file for C17: the scheduler is built by newScheduler with
+// the existing seams withClock / withEventLoop, the state by newState, callers
+// use doDownload / RemoveTorrent, events are the package's event types applied
+// through their apply methods. No struct field of scheduler or state is read
+// here (that is whitebox.go).
 
 // ---- harness event loop (plugged in through the eventLoop seam) ----
 //
@@ -117,8 +120,11 @@ type verif17Env struct {
 
 	tokens       int // tokens consumed from loop.sig
 	expected     int // tokens that will eventually arrive
-	noticed      map[*dispatch.Dispatcher]bool
 	everComplete bool
+
+	// hookBefore (set by whitebox.go) runs before an event is applied and
+	// returns what to run after it.
+	hookBefore func(event) func()
 
 	results [2]chan error
 	started [2]bool
@@ -129,27 +135,17 @@ type verif17Env struct {
 }
 
 func verif17NewEnv(cut bool) *verif17Env {
-	e := &verif17Env{clk: clock.NewMock(), cut: cut, noticed: map[*dispatch.Dispatcher]bool{}}
+	e := &verif17Env{clk: clock.NewMock(), cut: cut}
 	e.loop = &verif17Loop{sig: make(chan struct{}, 64)}
 	e.arch = &verif17Archive{t: dispatch.Verif17NewTorrent(2)}
-	lifted := liftEventLoop(e.loop)
-	logger := zap.NewNop().Sugar()
 	var pid core.PeerID
 	pid[0] = 0xEE
-	e.sched = &scheduler{
-		pctx:           core.PeerContext{PeerID: pid, IP: "localhost", Port: 1},
-		config:         Config{SeederTTI: 10 * time.Second, LeecherTTI: 10 * time.Second, ConnTTI: time.Hour, ConnTTL: time.Hour},
-		clock:          e.clk,
-		torrentArchive: e.arch,
-		stats:          tally.NoopScope,
-		eventLoop:      lifted,
-		announceClient: announceclient.Disabled(),
-		announcer:      announcer.Default(announceclient.Disabled(), lifted, e.clk, logger),
-		netevents:      verif17NoEvents{},
-		torrentlog:     torrentlog.NewNopLogger(),
-		logger:         logger,
-		done:           make(chan struct{}),
-	}
+	sched, err := newScheduler(
+		Config{SeederTTI: 10 * time.Second, LeecherTTI: 10 * time.Second, ConnTTI: time.Hour, ConnTTL: time.Hour},
+		e.arch, tally.NoopScope, core.PeerContext{PeerID: pid, IP: "localhost", Port: 1},
+		announceclient.Disabled(), verif17NoEvents{}, withClock(e.clk), withEventLoop(e.loop))
+	verif.Assert("new-scheduler", err == nil)
+	e.sched = sched
 	e.st = newState(e.sched, announcequeue.New())
 	for i := range e.results {
 		e.results[i] = make(chan error, 1)
@@ -162,20 +158,6 @@ func (e *verif17Env) settle() {
 	for e.tokens < e.expected {
 		<-e.loop.sig
 		e.tokens++
-	}
-}
-
-func (e *verif17Env) ctrl() *torrentControl { return e.st.torrentControls[e.arch.t.Hash] }
-
-// noteNotices accounts for completion notices fired by dispatchers created or
-// completed during the last step (each fires exactly one asynchronous send).
-func (e *verif17Env) noteNotices() {
-	if c := e.ctrl(); c != nil && c.dispatcher.Complete() && !e.noticed[c.dispatcher] {
-		e.noticed[c.dispatcher] = true
-		e.expected++
-	}
-	if e.arch.t.Complete() {
-		e.everComplete = true
 	}
 }
 
@@ -209,38 +191,15 @@ func (e *verif17Env) startShutdown() {
 	e.settle()
 }
 
-// completeTorrent: a remote peer delivers the remaining pieces (runs on the
-// dispatcher's own goroutine in reality, i.e. outside the event loop).
-func (e *verif17Env) completeTorrent() bool {
-	c := e.ctrl()
-	if c == nil || c.dispatcher.Complete() {
-		return false
-	}
-	dispatch.Verif17DeliverMissingPieces(c.dispatcher, e.arch.t.MissingPieces())
-	e.noteNotices()
-	e.settle()
-	return true
-}
-
 // applyOne lets the loop receive pool[j] and apply it.
 func (e *verif17Env) applyOne(j int) {
 	e.loop.mu.Lock()
 	p := e.loop.pool[j]
 	e.loop.pool = append(e.loop.pool[:j:j], e.loop.pool[j+1:]...)
 	e.loop.mu.Unlock()
-	// window of FINDINGS.md: a completed torrent whose waiters have not been
-	// notified yet
-	c0 := e.ctrl()
-	inWindow := false
-	if c0 != nil && c0.dispatcher.Complete() && len(c0.errors) > 0 {
-		// ... and whose completion notice is still waiting to be received
-		e.loop.mu.Lock()
-		for _, q := range e.loop.pool {
-			if ce, ok := q.e.(dispatcherCompleteEvent); ok && ce.dispatcher == c0.dispatcher {
-				inWindow = true
-			}
-		}
-		e.loop.mu.Unlock()
+	var after func()
+	if e.hookBefore != nil {
+		after = e.hookBefore(p.e)
 	}
 	if _, ok := p.e.(preemptionTickEvent); ok && e.tickDelay >= 0 {
 		// the tick arrives some time after the previous events: before / at /
@@ -253,16 +212,16 @@ func (e *verif17Env) applyOne(j int) {
 	}
 	p.accepted <- true
 	p.e.apply(e.st)
-	if e.cut && inWindow && e.ctrl() != c0 {
-		switch p.e.(type) {
-		case removeTorrentEvent, preemptionTickEvent:
-			// the control was removed inside the window: known defect, checked
-			// by VerifDownloadFindingRemovalRace
-			verif.Assume(false)
-		}
+	if after != nil {
+		after()
 	}
-	e.noteNotices()
 	e.settle()
+}
+
+func (e *verif17Env) loopStopped() bool {
+	e.loop.mu.Lock()
+	defer e.loop.mu.Unlock()
+	return e.loop.stopped
 }
 
 func (e *verif17Env) poolLen() int {
@@ -279,7 +238,7 @@ func (e *verif17Env) finish() {
 	for e.poolLen() > 0 {
 		e.applyOne(verif.Choice("drain", e.poolLen()))
 	}
-	if !e.loop.stopped {
+	if !e.loopStopped() {
 		e.tickDelay = 30
 		e.startTick()
 		for e.poolLen() > 0 {
@@ -313,19 +272,27 @@ func (e *verif17Env) finish() {
 	}
 }
 
-// run: all callers start at once and block in send (as real callers do on the
-// unbuffered event channel); the loop then receives them in every order, and
-// the remote peer may complete the torrent between any two events (its
-// completion notice then joins the blocked senders).
-//   withD2: a second Download of the same blob
-//   x: 0 nothing else, 1 RemoveTorrent, 2 preemption tick, 3 Stop
-func (e *verif17Env) run() {
+// VerifDownloadNotFound: a blob the archive does not know returns not-found
+// without involving the loop.
+func VerifDownloadNotFound() {
+	e := verif17NewEnv(true)
+	var other core.Digest
+	d, err := core.NewSHA256DigestFromHex("ff112233445566778899aabbccddeeff00112233445566778899aabbccddeeff")
+	verif.Assert("digest", err == nil)
+	other = d
+	_, derr := e.sched.doDownload("ns", other)
+	verif.Assert("not-found", derr == ErrTorrentNotFound)
+	verif.Assert("no-event", e.poolLen() == 0)
+}
+
+// runNoCompletion: all callers start at once and block in send; the loop
+// receives them in every order; the torrent never completes, so every caller
+// must end with one of the documented errors (manual removal, idle timeout by
+// the recurring tick, or shutdown).
+func (e *verif17Env) runNoCompletion() {
 	verif.Option("max_preempt", 0)
 	verif.Option("max_threads", 24)
-	// Senders, waiters and helper goroutines only interact through the pool
-	// and the result channels; the order in which the loop receives them is
-	// the explicit Choice below, so the order in which parked goroutines are
-	// resumed carries no further behaviour.
+	// see whitebox.go run(): the receive order is the explicit Choice
 	verif.Option("sched_fixed", 1)
 	withD2 := verif.Choice("second_download", 2) == 1
 	x := verif.Choice("other_event", 4)
@@ -341,58 +308,14 @@ func (e *verif17Env) run() {
 	case 3:
 		e.startShutdown()
 	}
-	for step := 0; step < 8; step++ {
-		n := e.poolLen()
-		c := e.ctrl()
-		canComplete := !e.completed && !e.loop.stopped && c != nil && !c.dispatcher.Complete()
-		if n == 0 {
-			if !canComplete || verif.Choice("complete_at_end", 2) == 0 {
-				break
-			}
-			e.completeTorrent()
-			e.completed = true
-			continue
-		}
-		k := n
-		if canComplete {
-			k++
-		}
-		j := verif.Choice("next", k)
-		if j == n {
-			verif.Reach("torrent-completed-by-peer")
-			e.completeTorrent()
-			e.completed = true
-			continue
-		}
-		e.applyOne(j)
+	for e.poolLen() > 0 {
+		e.applyOne(verif.Choice("next", e.poolLen()))
 	}
 	e.finish()
 }
 
-// VerifDownloadReturnsOnce: every interleaving outside the window of
-// FINDINGS.md.
-func VerifDownloadReturnsOnce() {
-	verif.Note("applying a removal (manual or idle) while a completed torrent still has un-notified waiters is cut here; see VerifDownloadFindingRemovalRace")
-	e := verif17NewEnv(true)
-	e.run()
-}
-
-// VerifDownloadFindingRemovalRace: the same exploration without the cut. Fires
-// on the current tree (FINDINGS.md): Download hangs.
-func VerifDownloadFindingRemovalRace() {
+// VerifDownloadNeverCompletes: API-only exploration (no completion).
+func VerifDownloadNeverCompletes() {
 	e := verif17NewEnv(false)
-	e.run()
-}
-
-// VerifDownloadNotFound: a blob the archive does not know returns not-found
-// without involving the loop.
-func VerifDownloadNotFound() {
-	e := verif17NewEnv(true)
-	var other core.Digest
-	d, err := core.NewSHA256DigestFromHex("ff112233445566778899aabbccddeeff00112233445566778899aabbccddeeff")
-	verif.Assert("digest", err == nil)
-	other = d
-	_, derr := e.sched.doDownload("ns", other)
-	verif.Assert("not-found", derr == ErrTorrentNotFound)
-	verif.Assert("no-event", e.poolLen() == 0)
+	e.runNoCompletion()
 }
